@@ -37,6 +37,42 @@ pub assume_specification [ str::to_uppercase ] (s: &str) -> (r: String)
     ensures r@ == str_upper(s@);
 pub assume_specification [ str::trim ] (s: &str) -> (r: &str)
     ensures r@ == str_trim(s@);
+pub assume_specification [ String::len ] (s: &String) -> (r: usize)
+    ensures r as int == str_bytes(s@).len();
+pub assume_specification [ u64::checked_pow ] (a: u64, b: u32) -> (r: Option<u64>)
+    ensures match r { Some(v) => v as int == int_pow(a as int, b as int), None => int_pow(a as int, b as int) > u64::MAX };
+pub assume_specification [ u128::checked_pow ] (a: u128, b: u32) -> (r: Option<u128>)
+    ensures match r { Some(v) => v as int == int_pow(a as int, b as int), None => int_pow(a as int, b as int) > u128::MAX };
+pub assume_specification<T: PartialEq, A: core::alloc::Allocator> [ Vec::<T, A>::dedup ] (v: &mut Vec<T, A>)
+    ensures final(v)@ == dedup_seq::<T>(old(v)@);
+
+// ---------- rule R15: `|=` / `&=` ----------
+pub trait BitS: Sized {
+    spec fn bor_spec(self, o: Self) -> Self;
+    spec fn band_spec(self, o: Self) -> Self;
+    fn bor_impl(self, o: Self) -> (r: Self) ensures r == self.bor_spec(o);
+    fn band_impl(self, o: Self) -> (r: Self) ensures r == self.band_spec(o);
+}
+impl BitS for bool {
+    open spec fn bor_spec(self, o: bool) -> bool { self || o }
+    open spec fn band_spec(self, o: bool) -> bool { self && o }
+    fn bor_impl(self, o: bool) -> (r: bool) { self || o }
+    fn band_impl(self, o: bool) -> (r: bool) { self && o }
+}
+impl BitS for u128 {
+    open spec fn bor_spec(self, o: u128) -> u128 { self | o }
+    open spec fn band_spec(self, o: u128) -> u128 { self & o }
+    fn bor_impl(self, o: u128) -> (r: u128) { self | o }
+    fn band_impl(self, o: u128) -> (r: u128) { self & o }
+}
+impl BitS for u64 {
+    open spec fn bor_spec(self, o: u64) -> u64 { self | o }
+    open spec fn band_spec(self, o: u64) -> u64 { self & o }
+    fn bor_impl(self, o: u64) -> (r: u64) { self | o }
+    fn band_impl(self, o: u64) -> (r: u64) { self & o }
+}
+pub fn bor<T: BitS>(a: T, b: T) -> (r: T) ensures r == a.bor_spec(b) { a.bor_impl(b) }
+pub fn band<T: BitS>(a: T, b: T) -> (r: T) ensures r == a.band_spec(b) { a.band_impl(b) }
 
 // ---------- abort-on-None/Err (rule R2) ----------
 pub trait UnwrapAbort<T>: Sized {
@@ -241,6 +277,14 @@ impl Decimal {
     pub fn round_dp(&self, dp: u32) -> (r: Decimal)
         ensures dp == 0 ==> r.q@ == of_int(round_half_even(self.q@)) && !r.w@, dp != 0 ==> r.q@ == round_other(1, dp as int, self.q@), r.nz@ ==> self.nz@
     { unimplemented!() }
+    #[verifier::external_body]
+    pub fn rescale(&mut self, scale: u32)
+        ensures final(self).q@ == rescale_spec(old(self).q@, scale as int), final(self).w@ == old(self).w@
+    { unimplemented!() }
+    #[verifier::external_body]
+    pub fn normalize(&self) -> (r: Decimal) ensures r.q@ == self.q@, r.w@ == self.w@, r.nz@ ==> self.nz@ { unimplemented!() }
+    #[verifier::external_body]
+    pub fn scale(&self) -> (r: u32) ensures r <= 28 { unimplemented!() }
     #[verifier::external_body]
     pub fn trunc(&self) -> (r: Decimal) ensures r.q@ == of_int(trunc_int(self.q@)) { unimplemented!() }
     #[verifier::external_body]
